@@ -28,6 +28,15 @@
 (*                      tolerates at the failing request and reports (or repairs) in a later call;     *)
 (*   (after an error the program has diverged: later calls are unconstrained, they only must not       *)
 (*    crash - a crash ends the trace with an ABORT line no action consumes)                            *)
+(*   RepairInPlace      continuation "inplace": when an API call that had a failure injected returns an *)
+(*                      error, memory is made available and exactly that call is repeated on the same  *)
+(*                      objects without any reset (redo > 0).  A failed call is atomic: the repeated    *)
+(*                      call must return what the clean run returned, and from then on every call must *)
+(*                      return what the clean run returned and leave the clean PRODUCT p (section      *)
+(*                      bytes/offsets/alignments, pool size+alignment, results of executed code,       *)
+(*                      container contents - no ids, no counters).  Calls that are not repeatable      *)
+(*                      (finalize, serialize_to, reinit - see harness) are never repeated: after their *)
+(*                      failure only reset/destroy are demanded, as in continuation "restart";         *)
 (*   Reusable           the reset between fault phase and retry succeeds;                              *)
 (*   RetryEqualsClean   the retry reproduces the clean run call by call - error, d and s: exactly the  *)
 (*                      code a failure-free run produces - and is complete;                            *)
@@ -39,19 +48,21 @@ VARIABLES
   phase,      \* "idle" | "clean" | "fault" | "reset" | "retry" | "destroyed" | "done"
   wl,         \* workload of the execution in progress
   expWl,      \* workload the ghost belongs to
-  expected,   \* ghost: sequence of <<call, result, d, s>> of the failure-free run of expWl
+  expected,   \* ghost: sequence of <<call, result, d, s, p>> of the failure-free run of expWl
   pos,        \* calls consumed in the current phase
   sync,       \* fault phase: TRUE while no error was reported and every call meant what the clean run's call meant
   hits,       \* number of calls during which a failure was injected (fault phase)
+  cont,       \* continuation of the fault run: "restart" | "inplace"
+  repaired,   \* inplace: some failed call has been repeated with memory available
   heap        \* <<blocks, mappings, descriptors>> outstanding after destruction (0,0,0 before)
 
-cvars == <<phase, wl, expWl, expected, pos, sync, hits, heap>>
+cvars == <<phase, wl, expWl, expected, pos, sync, hits, heap, cont, repaired>>
 
 Ok == "Ok"
 Classes == {"arena", "heap", "vm"}
 
 CInit == /\ phase = "idle" /\ wl = "" /\ expWl = "" /\ expected = <<>> /\ pos = 0
-         /\ sync = TRUE /\ hits = 0 /\ heap = <<0, 0, 0>>
+         /\ sync = TRUE /\ hits = 0 /\ heap = <<0, 0, 0>> /\ cont = "restart" /\ repaired = FALSE
 
 Quiescent == phase \in {"idle", "done"}
 
@@ -63,38 +74,46 @@ StartCleanOk(w) == Quiescent
 StartClean(w) ==
   /\ StartCleanOk(w)
   /\ phase' = "clean" /\ wl' = w /\ expWl' = w /\ expected' = <<>> /\ pos' = 0
-  /\ sync' = TRUE /\ hits' = 0 /\ heap' = <<0, 0, 0>>
+  /\ sync' = TRUE /\ hits' = 0 /\ heap' = <<0, 0, 0>> /\ cont' = "restart" /\ repaired' = FALSE
 
-CleanCallOk(i, c, r, f, d, s) == phase = "clean" /\ i = pos + 1 /\ ~f
-CleanCall(i, c, r, f, d, s) ==
-  /\ CleanCallOk(i, c, r, f, d, s)
-  /\ expected' = Append(expected, <<c, r, d, s>>) /\ pos' = i
-  /\ UNCHANGED <<phase, wl, expWl, sync, hits, heap>>
+CleanCallOk(i, c, r, f, d, s, p, redo) == phase = "clean" /\ i = pos + 1 /\ ~f /\ redo = 0
+CleanCall(i, c, r, f, d, s, p, redo) ==
+  /\ CleanCallOk(i, c, r, f, d, s, p, redo)
+  /\ expected' = Append(expected, <<c, r, d, s, p>>) /\ pos' = i
+  /\ UNCHANGED <<phase, wl, expWl, sync, hits, heap, cont, repaired>>
 
 (* ---- fault run ---- *)
-StartFaultOk(w, cls) ==
-  /\ Quiescent /\ cls \in Classes
+StartFaultOk(w, cls, ct) ==
+  /\ Quiescent /\ cls \in Classes /\ ct \in {"restart", "inplace"}
   /\ w = expWl /\ Len(expected) > 0           \* the ghost of this workload is known
-StartFault(w, cls) ==
-  /\ StartFaultOk(w, cls)
+StartFault(w, cls, ct) ==
+  /\ StartFaultOk(w, cls, ct)
   /\ phase' = "fault" /\ wl' = w /\ pos' = 0 /\ sync' = TRUE /\ hits' = 0 /\ heap' = <<0, 0, 0>>
+  /\ cont' = ct /\ repaired' = FALSE
   /\ UNCHANGED <<expWl, expected>>
 
-ExactlyClean(i, c, r, d, s) == i <= Len(expected) /\ expected[i] = <<c, r, d, s>>
+ExactlyClean(i, c, r, d, s, p) == i <= Len(expected) /\ expected[i] = <<c, r, d, s, p>>
 MeansClean(i, c, r, s) == i <= Len(expected) /\ expected[i][1] = c /\ expected[i][2] = r /\ expected[i][4] = s
+ProductClean(i, c, r, p) == i <= Len(expected) /\ expected[i][1] = c /\ expected[i][2] = r /\ expected[i][5] = p
 
-FaultCallOk(i, c, r, f, d, s) ==
+FaultCallOk(i, c, r, f, d, s, p, redo) ==
   /\ phase = "fault" /\ i = pos + 1 /\ i <= Len(expected)
   /\ c = expected[i][1]                       \* the program is fixed
+  /\ (redo > 0 => cont = "inplace" /\ f)      \* only a call that had a failure injected is ever repeated
   /\ IF ~sync THEN TRUE                                                  \* diverged after a reported error
-     ELSE IF hits = 0 /\ ~f THEN ExactlyClean(i, c, r, d, s)              \* Deterministic
+     ELSE IF hits = 0 /\ ~f THEN ExactlyClean(i, c, r, d, s, p)           \* Deterministic
+     ELSE IF redo > 0 \/ repaired
+       THEN \/ redo = 0 /\ f /\ r # Ok                                   \* a call that is not repeatable failed: diverged
+            \/ ProductClean(i, c, r, p)                                  \* RepairInPlace
      ELSE r # Ok \/ MeansClean(i, c, r, s)                                \* ErrorOrCorrect
-FaultCall(i, c, r, f, d, s) ==
-  /\ FaultCallOk(i, c, r, f, d, s)
-  /\ sync' = (sync /\ MeansClean(i, c, r, s))
+InSync(i, c, r, s, p, redo) == IF redo > 0 \/ repaired THEN ProductClean(i, c, r, p) ELSE MeansClean(i, c, r, s)
+FaultCall(i, c, r, f, d, s, p, redo) ==
+  /\ FaultCallOk(i, c, r, f, d, s, p, redo)
+  /\ sync' = (sync /\ InSync(i, c, r, s, p, redo))
+  /\ repaired' = (repaired \/ (sync /\ redo > 0))
   /\ hits' = IF f THEN hits + 1 ELSE hits
   /\ pos' = i
-  /\ UNCHANGED <<phase, wl, expWl, expected, heap>>
+  /\ UNCHANGED <<phase, wl, expWl, expected, heap, cont>>
 
 ResetObjectsOk(r) ==
   /\ phase = "fault" /\ pos = Len(expected)   \* the whole program was executed, errors or not
@@ -102,15 +121,15 @@ ResetObjectsOk(r) ==
 ResetObjects(r) ==
   /\ ResetObjectsOk(r)
   /\ phase' = "retry" /\ pos' = 0
-  /\ UNCHANGED <<wl, expWl, expected, sync, hits, heap>>
+  /\ UNCHANGED <<wl, expWl, expected, sync, hits, heap, cont, repaired>>
 
-RetryCallOk(i, c, r, f, d, s) ==
-  /\ phase = "retry" /\ i = pos + 1 /\ ~f
-  /\ ExactlyClean(i, c, r, d, s)              \* RetryEqualsClean
-RetryCall(i, c, r, f, d, s) ==
-  /\ RetryCallOk(i, c, r, f, d, s)
+RetryCallOk(i, c, r, f, d, s, p, redo) ==
+  /\ phase = "retry" /\ i = pos + 1 /\ ~f /\ redo = 0
+  /\ ExactlyClean(i, c, r, d, s, p)           \* RetryEqualsClean
+RetryCall(i, c, r, f, d, s, p, redo) ==
+  /\ RetryCallOk(i, c, r, f, d, s, p, redo)
   /\ pos' = i
-  /\ UNCHANGED <<phase, wl, expWl, expected, sync, hits, heap>>
+  /\ UNCHANGED <<phase, wl, expWl, expected, sync, hits, heap, cont, repaired>>
 
 DestroyOk ==
   \/ phase = "retry" /\ pos = Len(expected)    \* the retry was complete
@@ -118,7 +137,7 @@ DestroyOk ==
 Destroy ==
   /\ DestroyOk
   /\ phase' = "destroyed"
-  /\ UNCHANGED <<wl, expWl, expected, pos, sync, hits, heap>>
+  /\ UNCHANGED <<wl, expWl, expected, pos, sync, hits, heap, cont, repaired>>
 
 LeakReportOk(blocks, maps, fds) ==
   /\ phase = "destroyed"
@@ -127,7 +146,7 @@ LeakReport(blocks, maps, fds) ==
   /\ LeakReportOk(blocks, maps, fds)
   /\ heap' = <<blocks, maps, fds>>
   /\ phase' = "done"
-  /\ UNCHANGED <<wl, expWl, expected, pos, sync, hits>>
+  /\ UNCHANGED <<wl, expWl, expected, pos, sync, hits, cont, repaired>>
 
 CInv == /\ phase \in {"idle", "clean", "fault", "retry", "destroyed", "done"}
         /\ pos <= Len(expected)
